@@ -154,10 +154,11 @@ def c_get_prob(ctx, args):
         import torch, vlib.impl_torch as TT
         obj = TT.STATE(t)
     for bits in itertools.product((0, 1), repeat=n):
-        if be == 'np':
-            got = float(obj.get_prob(np.array(bits)))
+        k_ = sum(bits) + len(bits) + int(t[1])
+        if be == 'np':      # the bit string as an int64 / bool / uint8 / int8 / int32 array (a mask such as samples > 0 is a bool array)
+            got = float(obj.get_prob(np.array(bits, dtype=[np.int64, np.bool_, np.uint8, np.int8, np.int32][k_ % 5])))
         else:
-            got = float(obj.get_prob(torch.tensor([float(b) for b in bits])))
+            got = float(obj.get_prob(torch.tensor([float(b) for b in bits]) if k_ % 3 else torch.tensor([bool(b) for b in bits])))
         idx = int(''.join(str(b) for b in bits), 2)
         want = rho[idx, idx].real
         if abs(got - want) > 1e-9:
